@@ -193,6 +193,11 @@ def planar_cases(draw, tier):
             if off not in P:
                 P[draw(st.integers(0, n - 1))] = off
     k = draw(st.sampled_from([0, 0, -10, 4]))
+    off = draw(st.sampled_from([0, 0, 0, 3000000, 1700000000]))     # byte counts / time stamps: large offset, unit spacing
+    if off and g <= 1000:
+        P = [(a + off, b + off // 3) for a, b in P]
+        k = 0
+        mode += '+offset'
     return {'kind': 'planar', 'mode': mode, 'g': g, 'P': [list(p) for p in P], 'k': k}
 
 
